@@ -55,10 +55,18 @@ def member_hook(rd, e, path, st):
     return M if M is not None else NotImplemented
 
 
-def _index(e):
+def _index(e, rd=None, st=None, ctx=None):
     idx = []
     for a in e['args'][1:]:
         cv = const_value(a)
+        if cv is None and rd is not None:
+            # an index that is a local with a known integer value (an unrolled loop counter)
+            try:
+                vs = rd.ev(a, st, ctx)
+            except sym.Unsupported:
+                vs = []
+            if len(vs) == 1 and isinstance(vs[0][0], sp.Integer):
+                cv = int(vs[0][0])
         if cv is None:
             return None
         idx.append(int(cv))
@@ -75,7 +83,7 @@ def hook(rd, e, st, ctx):
         # element store M(i,j) = v / v[i] = v
         if l.get('k') == 'Op' and l.get('op') in ('()', '[]'):
             base = strip_casts(l['args'][0])
-            idx = _index(l)
+            idx = _index(l, rd, st, ctx)
             lv = rd.lvalue(base, st, ctx)
             d = dims_of(base['t']['s'])
             if idx is not None and d is not None and lv and lv[0] in ('field', 'local', 'localmember'):
@@ -153,7 +161,7 @@ def hook(rd, e, st, ctx):
         return vec.hook(rd, e, st, ctx)
     if k == 'Op' and e.get('op') in ('()', '[]') and len(e.get('args', [])) in (2, 3):
         base = strip_casts(e['args'][0])
-        idx = _index(e)
+        idx = _index(e, rd, st, ctx)
         d = dims_of(base['t']['s'])
         if idx is not None and d is not None:
             lv = rd.lvalue(base, st, ctx)
